@@ -356,7 +356,15 @@ def run_history(cfg: dict, k: int, events: list, chains: list | None, refs: list
     orc = oracle_for(cfg)
     inst = NashMTL(n_tasks=m, max_norm=mn, update_weights_every=k, optim_niter=niter)
     seen_w: list = []
-    inst.weighting.register_forward_hook(lambda _mod, _inp, out: seen_w.append(out.detach().clone()))
+    hooked = [None]
+
+    def _observe_weighting():
+        # the observation point follows the attribute: reset() may legitimately install another object
+        if inst.weighting is not hooked[0]:
+            inst.weighting.register_forward_hook(lambda _mod, _inp, out: seen_w.append(out.detach().clone()))
+            hooked[0] = inst.weighting
+
+    _observe_weighting()
     w_at: dict[int, torch.Tensor] = {}
     failed_at: dict[int, int] = {}
     exhausted_at: dict[int, bool] = {}
@@ -365,6 +373,7 @@ def run_history(cfg: dict, k: int, events: list, chains: list | None, refs: list
     for pos, sym in enumerate(events, start=1):
         if sym == "reset":
             inst.reset()
+            _observe_weighting()
             continue
         J = orc.mat(sym)
         rec = {"at": pos, "sym": sym, "solves": 0, "failed": 0, "exc": "none", "out": None, "ok_value": None,
